@@ -211,6 +211,8 @@ var c10Lexemes = []string{
 	"// c", "// c\n", "//", "//\n", "/ /", "/*x*/",
 	" ", "  ", "\t", "\n", "\r\n", "\r", "\n\n",
 	"\x00", "\xff", "\xc3\xa9", "\xe4\xb8\xad", "\xf0\x9f\x98\x80", "\x80", "\x7f", "\x01",
+	// byte sequences that other tools treat specially at the start of a file or as line ends
+	"\xef\xbb\xbf", "\xef\xbb", "\xfe\xff", "\xff\xfe", "\xe2\x80\xa8", "\xe2\x80\xa9", "\xc2\xa0", "\xc2\x85", "\x0b", "\x0c", "#!/usr/bin/env xjs\n", "<!--", "-->",
 }
 
 func c10Gen(t *rapid.T, rec *evid.Recorder) c10Case {
@@ -269,6 +271,7 @@ func c10Gen(t *rapid.T, rec *evid.Recorder) c10Case {
 var c10Witnesses = []c10Case{
 	{Src: []byte("")}, {Src: []byte("a==b")}, {Src: []byte("a <= b\nc != d")}, {Src: []byte("x\x00y")}, {Src: []byte("\"abc")}, {Src: []byte("`abc")},
 	{Src: []byte("a // c")}, {Src: []byte("a\r\nb")}, {Src: []byte("\n\n  foo")}, {Src: []byte("\"\\")}, {Src: []byte("a &&\n b||c")}, {Src: []byte("i++ + --j")},
+	{Src: []byte("\xef\xbb\xbflet a = 1")}, {Src: []byte("\xef\xbb\xbf")}, {Src: []byte("#!/usr/bin/env xjs\nlet a")}, {Src: []byte("x = `one\ntwo` + y\nz")}, {Src: []byte("2e+x 1e; 10else")},
 }
 
 func TestC10(t *testing.T) {
